@@ -27,6 +27,7 @@ import Driver.Util
 
     err c|d <error>       one error value returned by a controller method (c) / directly (d)
         <error> = A<n> (annotation set, n annotations) | I (import not exist) | T (errors.New("x"))
+                | F (the error bufmodule's header scan returns for `import ;`) | N (the error ModuleDeps() returns for a missing import)
                 | Z (errors.New("")) | W(e) fmt.Errorf("w: %w", e) | P<code>(e) app.WrapError(code, e)
                 | S(e) syserror.Wrap(e) | C(e) connect unavailable | K(e) connect internal | J(e,e) errors.Join
       -> exit=<n> printed=<count> failure=<0|1>
@@ -35,6 +36,11 @@ import Driver.Util
         <mode> = subset of the letters d (-d) w (-w) o (-o <dir or .proto file>) e (--exit-code); "-" = plain
       -> exit=<n> printed=<0|1> failure=<0|1> stdout=<n|d|s|b> rewrote=<0|1> wrote=<0|1>
          stdout: n nothing, d the diff, s the formatted source, b both
+    exit lsfiles <steps>      `buf ls-files` (NewController, GetImportableImageFileInfos, listing)
+    fmtw <file>;<file>;…      `buf format -w` at the level of file contents; the files in path order
+        <file> = path,orig,fmt,target,openable   (path / orig hex; fmt hex, "!" = does not parse;
+                 target / openable 0|1)
+      -> err=<0|1> diff=<0|1> files=<path>:<content>;…   (hex)
 -/
 namespace Driver.C20
 open BufModel.Annot Driver
@@ -145,6 +151,10 @@ partial def parseErr : List Char → Option (GoErr × List Char)
   | 'I' :: r => some (.importNotExist, r)
   | 'T' :: r => some (.plain true, r)
   | 'Z' :: r => some (.plain false, r)
+  -- what bufmodule RETURNS for planted sources: the header scan's error for `import ;` (as coded
+  -- a FileAnnotationSet with one annotation), ModuleDeps() on a missing import (ImportNotExistError)
+  | 'F' :: r => some (.annotSet dummy [], r)
+  | 'N' :: r => some (.importNotExist, r)
   | 'A' :: r =>
     let ds := r.takeWhile Char.isDigit
     match dummies (String.ofList ds).toNat! with
@@ -188,6 +198,25 @@ def decMode (s : String) : Option FmtMode :=
            out := if cs.contains 'o' then .path else .stdout, exitCode := cs.contains 'e' }
   else none
 
+def decWFile (s : String) : Option WFile :=
+  match s.splitOn "," with
+  | [p, o, f, t, w] => do
+    let p ← decStr p
+    let o ← decStr o
+    let f ← if f = "!" then some none else (decStr f).map some
+    let t ← decBool t
+    let w ← decBool w
+    some { path := p, orig := o, fmt := f, target := t, openable := w }
+  | _ => none
+
+def handleFmtW (s : String) : String :=
+  match (s.splitOn ";").mapM decWFile with
+  | some fs =>
+    let r := formatWrite fs
+    "err=" ++ (if r.2.1 then "1" else "0") ++ " diff=" ++ (if r.2.2 then "1" else "0") ++ " files=" ++
+      ";".intercalate (r.1.map fun pc => encS pc.1 ++ ":" ++ encS pc.2)
+  | none => "bad-op"
+
 def showEffects (e : FmtEffects) : String :=
   let so := match e.stdoutDiff, e.stdoutSource with
     | false, false => "n" | true, false => "d" | false, true => "s" | true, true => "b"
@@ -228,6 +257,9 @@ def handle : List String → String
       | some c => showOutcome (build c) | none => "bad-op"
   | ["exit", "depgraph", c] => match decCSteps c with
       | some c => showOutcome (Cmd.depGraph c).run | none => "bad-op"
+  | ["exit", "lsfiles", c] => match decCSteps c with
+      | some c => showOutcome (Cmd.lsFiles c).run | none => "bad-op"
+  | ["fmtw", s] => handleFmtW s
   | ["exit", "format", m, sw, c, f, d, cp, rw, o] =>
       match decMode m, decBool sw, decCSteps c, decStep f, decBool d, decStep cp, decStep rw, decStep o with
       | some m, some sw, some c, some f, some d, some cp, some rw, some o =>
